@@ -31,11 +31,11 @@ var Registry = map[string]RuleFunc{}
 
 // Properties maps property ids to the rule ids that decide them.
 var Properties = map[string][]string{
-	"C01": {"C01.a", "C01.b", "C01.c", "C01.d", "C12.d", "C05.b", "C10.scan", "C03.d", "C10.sym", "C03.c"},
+	"C01": {"C01.a", "C01.b", "C01.c", "C01.d", "C12.d", "C05.b", "C10.scan", "C03.d", "C10.sym", "C03.c", "C09.g", "C10.g", "C09.h", "C10.f"},
 	"C02": {"C02.a", "C02.b", "C01.a", "C10.sym", "C10.scan", "C03.c"},
-	"C03": {"C03.a", "C03.c", "C03.d", "C01.a", "C10.sym"},
+	"C03": {"C03.a", "C03.c", "C03.d", "C01.a", "C10.sym", "C10.g", "C09.h"},
 	"C04": {"C04.a", "C04.a3", "C04.b"},
-	"C09": {"C09", "C09.g", "C01.a", "C01.b", "C16.c", "C09.h", "C10.sym", "C10.scan", "C03.c"},
+	"C09": {"C09", "C09.g", "C01.a", "C01.b", "C16.c", "C09.h", "C10.sym", "C10.scan", "C03.c", "C10.g", "C10.f"},
 	"C10": {"C07", "C10.scan", "C10.b", "C10.f", "C10.g", "C03.c", "C09.h", "C10.sym", "C01.a"},
 	"C05": {"C02.a", "C02.b", "C05.b", "C05.c", "C01.d", "C05.e", "C05.g", "C17.f", "C06.g", "C12.b"},
 	"C07": {"C07"},
